@@ -314,6 +314,8 @@ def run_array(c):
             lay = []
             src = np.asarray(a)
             for w in REC["w"]:
+                if w["hasobject"] and w["pos"] is not None:
+                    out.setdefault("object_payload_heads", []).append(data[w["pos"]: w["pos"] + 2].hex())
                 if w["hasobject"] or w["pos"] is None or w["align"] is None:
                     lay.append(None)
                     continue
@@ -363,6 +365,7 @@ def run_array(c):
             return out
         d = compare(a, b1, strict) or compare(a, b2, strict)
         out["diff"] = d
+        out["loaded_type"] = type(b1).__name__
         if mm is not None:
             out["mm"] = {"is_memmap": isinstance(b1, np.memmap), "aligned": (b1.ctypes.data % A == 0) if b1.size else True,
                          "offset": int(getattr(b1, "offset", -1)), "mode": getattr(b1, "mode", None),
@@ -493,6 +496,127 @@ def run_loky(c):
         shutil.rmtree(wd, ignore_errors=True)
 
 
+# ------------------------------------------------------------------ load() dispatch matrix
+class OtherReader:
+    """a readable, seekable, peekable object that is neither a raw file nor a BytesIO"""
+
+    def __init__(self, data):
+        self._f = io.BufferedReader(io.BytesIO(data))
+
+    def __getattr__(self, n):
+        if n == "raw" or n == "name":
+            raise AttributeError(n)
+        return getattr(self._f, n)
+
+
+def classify_warning(w):
+    msg = str(w.message)
+    if "In memory persistence is not compatible" in msg:
+        return "bytesio"
+    if "is not compatible with compressed file" in msg:
+        return "compressed"
+    if "is not a raw file" in msg:
+        return "notraw"
+    return type(w.message).__name__ + ":" + msg[:60]
+
+
+def run_loadmatrix(c):
+    """every (source kind x mmap_mode x ensure_native_byte_order) for one compress form and one payload"""
+    wd = tempfile.mkdtemp(dir=TMP)
+    try:
+        kind = c["payload"]
+        if kind == "array":
+            obj = np.arange(6, dtype=">i4").reshape(2, 3)
+        elif kind == "object":
+            obj = np.array([1, "a", None], dtype=object)
+        else:
+            obj = {"k": [1, 2.5, "x"]}
+        path = os.path.join(wd, "f.bin")
+        joblib.dump(obj, path, compress=mk_form(c["form"]))
+        data = open(path, "rb").read()
+        res = []
+        for sk in ("path", "pathlib", "rawfile", "bytesio", "other"):
+            for mm in (None, "r", "r+", "c", "w+"):
+                for na in ("auto", True, False):
+                    shutil.copyfile(path, path + ".work")
+                    import pathlib
+                    opened = None
+                    if sk == "path":
+                        src = path + ".work"
+                    elif sk == "pathlib":
+                        src = pathlib.Path(path + ".work")
+                    elif sk == "rawfile":
+                        src = opened = open(path + ".work", "rb")
+                    elif sk == "bytesio":
+                        src = io.BytesIO(data)
+                    else:
+                        src = OtherReader(data)
+                    r = {"src": sk, "mmap": mm, "native": na}
+                    try:
+                        with warnings.catch_warnings(record=True) as ws:
+                            warnings.simplefilter("always")
+                            back = joblib.load(src, mmap_mode=mm, ensure_native_byte_order=na)
+                        r["warn"] = sorted(set(classify_warning(w) for w in ws))
+                        if kind == "array":
+                            r["memmap"] = isinstance(back, np.memmap)
+                            r["native_applied"] = back.dtype.str == "<i4"
+                            r["ok"] = back.tolist() == obj.tolist() and back.shape == obj.shape
+                        elif kind == "object":
+                            r["memmap"] = isinstance(back, np.memmap)
+                            r["ok"] = back.tolist() == obj.tolist()
+                        else:
+                            r["ok"] = back == obj
+                        del back
+                    except Exception as e:  # noqa
+                        r["raise"] = type(e).__name__
+                    finally:
+                        if opened is not None:
+                            opened.close()
+                    res.append(r)
+        return {"res": res}
+    finally:
+        import gc
+        gc.collect()
+        shutil.rmtree(wd, ignore_errors=True)
+
+
+# ------------------------------------------------------------------ which reduction an array takes
+def run_route(c):
+    wd = tempfile.mkdtemp(dir=TMP)
+    try:
+        rng = random.Random(c["seed"])
+        if c["array"].get("reduce"):
+            spec = c["array"]
+            dt = mk_dtype(spec["dtype"])
+            shape = tuple(spec["shape"])
+            m = np.memmap(os.path.join(wd, "m.bin"), dtype=dt, mode="w+", shape=shape, order=spec.get("order", "C"))
+            a = apply_view(m, spec["ops"])
+        else:
+            a = build(c["array"], rng, wd)
+        folder = os.path.join(wd, "pool")
+        red = mr.ArrayMemmapForwardReducer(c["max_nbytes"], lambda: folder, "r", False, prewarm=False)
+        names = {"_strided_from_memmap": "reduce_backed", "load_temporary_memmap": "dump_temp", "loads": "pickle"}
+        out = {"nbytes": int(a.nbytes), "hasobject": bool(a.dtype.hasobject),
+               "has_backing": mr._get_backing_memmap(a) is not None}
+        f = red(a)
+        out["forward"] = names.get(getattr(f[0], "__name__", "?"), getattr(f[0], "__name__", "?"))
+        back = f[0](*f[1])
+        # a pickled array is normalised to the native byte order by numpy itself: values are compared
+        out["forward_ok"] = compare(a, back, out["forward"] != "pickle") is None
+        out["forward_memmap"] = mr._get_backing_memmap(back) is not None
+        # the way back: a joblib temporary memmap is pickled, a user memmap is re-mapped
+        b = mr.reduce_array_memmap_backward(back)
+        out["backward"] = names.get(getattr(b[0], "__name__", "?"), getattr(b[0], "__name__", "?"))
+        out["backward_is_joblib_temp"] = out["forward"] == "dump_temp"
+        del back
+        return out
+    finally:
+        import gc
+        gc.collect()
+        mr.JOBLIB_MMAPS.clear()
+        shutil.rmtree(wd, ignore_errors=True)
+
+
 def main():
     try:
         for line in sys.stdin:
@@ -501,7 +625,8 @@ def main():
                 continue
             c = json.loads(line)
             try:
-                r = {"array": run_array, "reduce": run_reduce, "loky": run_loky}[c["mode"]](c)
+                r = {"array": run_array, "reduce": run_reduce, "loky": run_loky, "loadmatrix": run_loadmatrix,
+                     "route": run_route}[c["mode"]](c)
             except BaseException as e:  # harness-level failure is reported, not hidden
                 import traceback
                 r = {"harness_error": repr(e), "tb": traceback.format_exc()[-800:]}
